@@ -2,7 +2,7 @@
 from __future__ import annotations
 
 from ..lib import NMEA2000Decoder
-from .. import refdb, gen, hist, project
+from .. import refdb, gen, hist, project, wire
 
 ID = "C11"
 LEVEL = "exploration"
@@ -24,7 +24,85 @@ MFRS = [1851, 1855, 137, 229, 135]
 
 def shards(tier, seed):
     n = 12 if tier == "quick" else 64
-    return [{"name": f"h-{i}", "i": i, "tier": tier, "seed": seed} for i in range(n)]
+    out = [{"name": f"h-{i}", "i": i, "tier": tier, "seed": seed} for i in range(n)]
+    # the same rules for what a gateway client delivers, across a lost link: claims arrive on the first connection,
+    # the sources' data (no fresh claims) on the one the client opens next
+    out += [{"name": f"client-{k}", "client": k, "tier": tier, "seed": seed} for k in ("ebyte", "yd", "waveshare", "actisense")]
+    return out
+
+
+def run_client(spec, acc):
+    import asyncio
+    from .. import simgw
+    from .c12 import packetise, expected_messages
+    dbx = refdb.db()
+    rng = gen.rng_for(spec["seed"], ID, spec["name"])
+    kind = spec["client"]
+    quick = spec["tier"] == "quick"
+    mtab = dbx.lookups["MANUFACTURER_CODE"]
+    sources = [10, 20, 30]
+    for rep in range(12 if quick else 150):
+        pool = hist.Pool(dbx, rng, n_single=6, n_fast=0 if kind == "actisense" else 2)
+        listed = rng.choice(MFRS)
+        mode = ["exclude", "include", "none"][rep % 3]
+        settings = {"build_network_map": rep % 2 == 0}
+        if mode != "none":
+            settings[f"{mode}_manufacturer_code"] = [case_variant(mtab[listed], rng)]
+        names = {s_: hist.claim_name(rng.randrange((1 << 21) - 3), rng.choice([listed, rng.choice(MFRS)])) for s_ in sources}
+
+        def pk(ev):
+            if kind == "actisense":
+                return (wire.actisense_line(ev.prio, ev.pgn, ev.src, 255, ev.data) + "\r\n").encode()
+            return packetise(kind, ev, rng)
+        first = [pk(hist.claim_event(s_, names[s_])) for s_ in sources]
+        data = []
+        for _ in range(10):
+            d = rng.choice(pool.singles)
+            pb = pool.payload(d)
+            if pb is None:
+                continue
+            data.append(pk(hist.Ev(rng.randrange(8), d.pgn, rng.choice(sources), 255, pb, "single", definition=d.id)))
+        first += data[:3]
+        second = data[3:]
+        want, _ = expected_messages(kind, first + second, settings)
+
+        async def scenario(sim):
+            sim.spawn("connect")
+            await asyncio.sleep(0.05)
+            if not sim.conns:
+                return
+            sim.conns[0].feed(b"".join(first))
+            await asyncio.sleep(0.5)
+            if kind == "waveshare" or rep % 2:
+                sim.conns[0].reset(simgw.serial_loss_exception() if kind == "waveshare" else ConnectionResetError(104, "reset by peer"))
+            else:
+                sim.conns[0].feed_eof()
+            for _ in range(6000):
+                if len(sim.conns) > 1 and sim.client.state.name == "CONNECTED":
+                    break
+                await asyncio.sleep(0.01)
+            if len(sim.conns) > 1:
+                await asyncio.sleep(0.05)
+                sim.conns[-1].feed(b"".join(second))
+            await asyncio.sleep(2.0)
+            await sim.call("close")
+        sim, stats = simgw.run_session(kind, scenario, client_kwargs=settings)
+        acc.count("client_sessions_across_a_reconnect")
+        if stats["error"] or sim is None:
+            acc.inconclusive_because(f"simulator: {stats['error']}")
+            continue
+        if len(sim.conns) < 2:
+            acc.count("second_connection_not_opened")
+            continue
+        got = [project.msg_proj(m) for m in sim.received]
+        acc.case((kind, repr(settings), tuple(first + second)) if want else None)
+        acc.count("identities_compared", len(got))
+        if got != want:
+            leak = [g for g in got if g not in want]
+            why = "identity-lost-or-traffic-leaks-after-reconnect" if (leak or len(got) != len(want)) else "client-delivery-differs-from-decoder"
+            acc.violation(why, f"{kind} {settings}: claims on the first connection, data on the second: a decoder with the same settings returns {len(want)} messages "
+                          f"(with identity), the client delivered {len(got)}; first difference: {next((g[8] for g, w_ in zip(got, want) if g != w_), None)!r}",
+                          {"client": kind, "settings": repr(settings), "expected": len(want), "delivered": len(got), "status": sim.status})
 
 
 def ref_identity(dbx, name: int):
@@ -45,6 +123,8 @@ def case_variant(s, rng):
 
 
 def run_shard(spec, acc):
+    if spec.get("client"):
+        return run_client(spec, acc)
     dbx = refdb.db()
     rng = gen.rng_for(spec["seed"], ID, spec["name"])
     quick = spec["tier"] == "quick"
